@@ -3345,7 +3345,10 @@ XPath::stepPattern(
 
             const XalanNode::NodeType   nodeType = context->getNodeType();
 
-            if(nodeType != XalanNode::ATTRIBUTE_NODE)
+            // Neither an attribute nor the root is the child of a
+            // node, so a child step, even node(), matches neither.
+            if(nodeType != XalanNode::ATTRIBUTE_NODE &&
+               nodeType != XalanNode::DOCUMENT_NODE)
             {
                 opPos += 3;
 
